@@ -296,7 +296,7 @@ def gen_confine(rnd):
         for key in ('pid', 'childpid'):
             if rnd.random() < (.6 if key == 'pid' else .3):
                 r[key] = rnd.choice(['own', 'own2', 'other', 'child', 'grandchild', 'foreign', 'init', 'dead', 'none',
-                                     'otherchild'])
+                                     'otherchild', 'zero', 'zero', 'false', 'empty'])
         if rnd.random() < .3:
             r['children'] = True
         if rnd.random() < .3:
@@ -358,6 +358,12 @@ def _confine(w, h, res):
                 return initp.pid
             if sel == 'dead':
                 return dead.pid
+            if sel == 'zero':
+                return 0
+            if sel == 'false':
+                return False
+            if sel == 'empty':
+                return ''
             return 39990
         props = {'name': name, 'signum': r['signum']}
         for key in ('pid', 'childpid'):
